@@ -5,6 +5,28 @@ use std::io::{BufRead, BufWriter, Write};
 
 use qv_core::{proj, script::Runner};
 
+static CUR_RUN: std::sync::atomic::AtomicU64 = std::sync::atomic::AtomicU64::new(0);
+static STARTED: std::sync::atomic::AtomicU64 = std::sync::atomic::AtomicU64::new(0);
+
+fn now_s() -> u64 {
+    std::time::SystemTime::now().duration_since(std::time::UNIX_EPOCH).map(|d| d.as_secs()).unwrap_or(0)
+}
+
+/// A call into the code under test that never returns cannot be interrupted; the watchdog records
+/// which run hung (a finding, not a tool error) and ends the process with status 3.
+fn watchdog(marker: String) {
+    let limit: u64 = std::env::var("QV_HANG_S").ok().and_then(|x| x.parse().ok()).unwrap_or(300);
+    std::thread::spawn(move || loop {
+        std::thread::sleep(std::time::Duration::from_secs(1));
+        let st = STARTED.load(std::sync::atomic::Ordering::SeqCst);
+        if st != 0 && now_s().saturating_sub(st) > limit {
+            let run = CUR_RUN.load(std::sync::atomic::Ordering::SeqCst);
+            let _ = std::fs::write(&marker, format!("{{\"run\":{run},\"limit_s\":{limit}}}"));
+            std::process::exit(3);
+        }
+    });
+}
+
 fn main() {
     let args: Vec<String> = std::env::args().collect();
     match args.get(1).map(|s| s.as_str()) {
@@ -49,17 +71,22 @@ fn main() {
                 .collect();
             std::panic::set_hook(Box::new(|_| {}));
             let mut run = first;
+            watchdog(format!("{outdir}/hang.json"));
             for line in std::io::BufReader::new(inp).lines() {
                 let line = line.unwrap();
                 if line.trim().is_empty() {
                     continue;
                 }
                 let script: serde_json::Value = serde_json::from_str(&line).expect("script json");
+                CUR_RUN.store(run, std::sync::atomic::Ordering::SeqCst);
+                STARTED.store(now_s(), std::sync::atomic::Ordering::SeqCst);
                 let trace = Runner::run_script(&script, run, probe);
+                STARTED.store(0, std::sync::atomic::Ordering::SeqCst);
                 for (p, o) in projs.iter().zip(outs.iter_mut()) {
                     for l in proj::project(p, &trace) {
                         writeln!(o, "{}", l).unwrap();
                     }
+                    o.flush().unwrap();
                 }
                 run += 1;
             }
@@ -71,6 +98,7 @@ fn main() {
             let inp = std::fs::File::open(&args[2]).expect("scripts file");
             let mut out = BufWriter::new(std::fs::File::create(&args[3]).expect("out"));
             let mut run: u64 = if args.len() > 5 && args[4] == "--first-run" { args[5].parse().unwrap() } else { 0 };
+            watchdog(format!("{}.hang.json", args[3]));
             for line in std::io::BufReader::new(inp).lines() {
                 let line = line.unwrap();
                 if line.trim().is_empty() {
@@ -78,6 +106,8 @@ fn main() {
                 }
                 let script: serde_json::Value = serde_json::from_str(&line).expect("script json");
                 let variant = script["tag"]["variant"].as_str().unwrap_or("same").to_string();
+                CUR_RUN.store(run, std::sync::atomic::Ordering::SeqCst);
+                STARTED.store(now_s(), std::sync::atomic::Ordering::SeqCst);
                 let a = Runner::run_script(&script, run, 0);
                 let mut sb = script.clone();
                 match variant.as_str() {
@@ -88,10 +118,12 @@ fn main() {
                     _ => {}
                 }
                 let b = Runner::run_script(&sb, run, 0);
+                STARTED.store(0, std::sync::atomic::Ordering::SeqCst);
                 let with_timeouts = variant != "spurious";
                 for l in qv_core::pair::zip(&serde_json::json!(run), &variant, &a, &b, with_timeouts) {
                     writeln!(out, "{}", l).unwrap();
                 }
+                out.flush().unwrap();
                 run += 1;
             }
         }
